@@ -131,5 +131,6 @@ theorem quiet_step (s : State σ ρ) (k : Key) (v : String) (e : Entry σ ρ) (o
     · exact hc
   | lookup k' => exact hc
   | systemData k' => exact hc
+  | elapse n => exact hc
 
 end Koreo.Cache
